@@ -67,6 +67,34 @@ func H_C11_hub() {
 	vCover("C11 hub scenario complete")
 }
 
+// H_C11_lastleave: the last peer of a session leaves while another peer joins the same session.
+func H_C11_lastleave() {
+	for iter := 0; iter < vRepeat(3000); iter++ {
+		h := NewHub()
+		send := func(env protocol.Envelope) error { return nil }
+		rm0 := h.Add("s", Peer{PeerID: "p", Role: "sender", ConnID: "c0"}, send, nil)
+		done := make(chan struct{}, 2)
+		go func() { rm0(); done <- struct{}{} }()
+		go func() {
+			h.Add("s", Peer{PeerID: "q", Role: "receiver", ConnID: "c1"}, send, nil)
+			done <- struct{}{}
+		}()
+		<-done
+		<-done
+		env := protocol.Envelope{V: 1, Type: "offer", MsgID: "m1", SessionID: "s", To: "q"}
+		vAssert(h.SendTo("s", "q", env), "a peer that connected while the last other peer left is routable")
+		listed := false
+		for _, pi := range h.List("s") {
+			if pi.PeerID == "q" {
+				listed = true
+			}
+		}
+		vAssert(listed, "a peer that connected while the last other peer left is listed")
+		vAssert(!h.SendTo("s", "p", env), "the peer that left is not routable")
+	}
+	vCover("C11 last-leave scenario complete")
+}
+
 func init() {
 	if !vSymbolic() {
 		vHubYield = func() { time.Sleep(200 * time.Microsecond) }
